@@ -276,11 +276,14 @@ impl FromStr for HLCTimestamp {
             .and_then(|v| v.parse::<u8>().ok())
             .ok_or(InvalidFormat)?;
 
-        Ok(Self::new(
-            parts_as_duration(seconds, fractional),
-            counter,
-            node,
-        ))
+        // Out of range seconds (including the carry of a fractional >= 250)
+        // are a format error, `Self::new` would otherwise panic.
+        let duration = Duration::from_secs(seconds)
+            .checked_add(Duration::from_millis(fractional as u64 * 4))
+            .filter(|duration| duration.as_secs() <= TIMESTAMP_MAX)
+            .ok_or(InvalidFormat)?;
+
+        Ok(Self::new(duration, counter, node))
     }
 }
 
